@@ -15,7 +15,7 @@ class C16(Prop):
     paper_steps = [
         "under contract (proved for every list and every function): helpers.foldl == folds, helpers.scanl == scans (cumulative reduction, generator with a peeled first iteration and a loop invariant), elements.vy_zip == zf (zip with zero fill); the generators of deltas (item j = subtract(lhs[j+1], lhs[j])), prefixes (item j = list of copies of lhs[0..j]), uniquify (first occurrences in order, with the membership lemma uq_has_the_same_members) map (item j = f(lhs[j])) and interleave (alternate, then the rest of the longer list; two iterators advanced by next()) against their defining recursions, each by a loop invariant over the yielded sequence; sum and cumulative sums as wrapper obligations over foldl / scanl with the element `add`",
         "zip / interleave of a lazy list with itself (x:Z, x:Y) run two iterators over one list in lock-step: LazyList.__iter__ is proved to yield every item exactly once and in order whatever other references pull in between (contract __iter__#interleaved, rely: the cache only grows)",
-        "every other law of the property (sort, reverse, max/min, transpose, uninterleave, wrap, sublists, powerset, permutations, cartesian product, counting, grouping, grading) is covered by the bounded stand-in only: executable laws on exhaustive small lists -- labelled bounded, not proved",
+        "every other law of the property (sort, reversal of lazy lists, max/min, transpose, uninterleave, wrap, sublists, powerset, permutations, cartesian product, counting, grouping, grading) is covered by the bounded stand-in only: executable laws on exhaustive small lists -- labelled bounded, not proved",
     ]
 
     def laws(self):
